@@ -1,7 +1,6 @@
 /-
-  Helper lemmas for property C18, part 4: the effect of one insertion (`Table.put`) on control
-  bytes, values, the element list and the invariant; the complete specification of the
-  table-level `emplace`; fresh tables.
+  Helper lemmas for property C18, part 4: the element list of a table and the effect of one
+  insertion (`Table.put`) on control bytes, values, the element list and the invariant.
 -/
 import Babylon.Swiss.SeqLemmasProbe
 
